@@ -64,6 +64,26 @@ def _const(value):
     return default
 
 
+class _Factory:
+    """A default factory that is a callable object, not a function (like a class, a functools.partial, ...)."""
+
+    def __init__(self, value):
+        self.value = value
+
+    def __call__(self):
+        return copy.deepcopy(self.value)
+
+
+def _factory(mode, value):
+    import functools
+
+    if mode == 'factory':
+        return _Factory(value)
+    if mode == 'partial':
+        return functools.partial(copy.deepcopy, value)
+    return _const(value)
+
+
 COUNTER = [0]  # reset by the check at the start of a case; NOT reset by a restore (that is the point)
 
 
@@ -148,7 +168,7 @@ def _declare(spec, which, prefix, tree):
                 kwargs['help'] = sub['help']
             if which == 'input' and sub.get('default') is not None:
                 mode, value = sub['default']
-                kwargs['default'] = _counter(value) if mode == 'counter' else (_const(value) if mode == 'callable' else copy.deepcopy(value))
+                kwargs['default'] = _counter(value) if mode == 'counter' else (_factory(mode, value) if mode in ('callable', 'factory', 'partial') else copy.deepcopy(value))
             getattr(spec, which)(path, **kwargs)
 
 
